@@ -268,11 +268,16 @@ def check_nullish_tables(ctx, rule):
     # the row test of the stage loop: the `if` that guards rows.append(row)
     loops = [n for n in walk_local(es.node) if isinstance(n, ast.For) and 'range(from_stage' in src(n.iter)]
     tests = []
+    row_names = {}
     for lp in loops:
         for n in ast.walk(lp):
-            if isinstance(n, ast.If) and any(isinstance(x, ast.Call) and src(x.func) == 'rows.append' and x.args and src(x.args[0]) == 'row'
-                                             for b in n.body for x in ast.walk(b)):
-                tests.append(n)
+            if isinstance(n, ast.If):
+                for b in n.body:
+                    for x in ast.walk(b):
+                        if isinstance(x, ast.Call) and src(x.func) == 'rows.append' and len(x.args) == 1 and isinstance(x.args[0], ast.Name) \
+                                and n not in tests:
+                            tests.append(n)
+                            row_names[id(n)] = x.args[0].id     # whatever the row is called (a helper's local after inlining)
     ctx.expect_count(rule, 'null-row test of the stage loop', len(tests), 1)
     env = G.single_assignments(es.node)
     import itertools
@@ -280,7 +285,10 @@ def check_nullish_tables(ctx, rule):
     samples = [[]] + [[a] for a in alphabet] + [[a, b] for a in alphabet for b in alphabet]
     for t in tests:
         at = f'{es.module.relpath}:{t.lineno}'
-        test = G.substitute(t.test, {k: v for k, v in env.items() if k != 'row'})
+        rn = row_names[id(t)]
+        test = G.substitute(t.test, {k: v for k, v in env.items() if k != rn})
+        if rn != 'row':
+            test = G.substitute(test, {rn: ast.Name(id='row', ctx=ast.Load())}, recursive=False)
         names = {x.id for x in ast.walk(test) if isinstance(x, ast.Name) and isinstance(x.ctx, ast.Load)}
         bound = {x.id for c in ast.walk(test) if isinstance(c, ast.comprehension) for x in ast.walk(c.target) if isinstance(x, ast.Name)}
         import builtins as _b
